@@ -271,7 +271,7 @@ def list_dir_files(d):
 FACTORS_QUICK = collections.OrderedDict([
     ("lang", LANGS), ("gs", GS), ("omit", [0, 1]), ("gnt", [0, 1]), ("tpl", ["none", "copy", "tree"]),
     ("stpl", ["none", "shadow"]), ("ext", [None, ".xx", "yy"]), ("stem", [None, "nsx"]),
-    ("ns", ["plain", "lookup"]), ("out", ["rel", "abs"]),
+    ("ns", ["plain", "lookup"]), ("out", ["rel", "abs", "dotslash", "updown", "symup", "relsymup"]), ("inp", ["plain", "messy", "symlink"]),
 ])
 
 
@@ -310,7 +310,7 @@ def wide_cfgs(rng, rounds):
     directories, all namespaces and output-directory styles."""
     wide = collections.OrderedDict(FACTORS_QUICK)
     wide["ns"] = ["plain", "lookup", "solo", "random"]
-    wide["out"] = ["rel", "abs", "dotted"]
+    wide["out"] = list(OUT_STYLES)
     wide["tpl"] = ["none", "copy", "tree", "any", "nons", "nested"]
     wide["ext"] = [None, ".xx", "yy", "", ".", ".a.b", "a/b"]
     wide["stem"] = [None, "nsx", "a.b", ".hid", "x."]
@@ -326,7 +326,13 @@ def full_grid(factors):
         yield dict(zip(names, vals))
 
 
-OUT_STYLES = {"rel": "out", "abs": "{sb}/abs.out/o", "dotted": "gen.d/./out.v1"}
+# Spellings of --outdir.  `lnk` is a symbolic link (one in the sandbox, one in the cwd) to <sandbox>/realdir/deep, so
+# `lnk/../gen` is physically <sandbox>/realdir/gen although it reads like <sandbox>/gen.
+OUT_STYLES = {"rel": "out", "abs": "{sb}/abs.out/o", "dotted": "gen.d/./out.v1", "dotslash": "./out//deep/", "updown": "a/../b",
+              "dot": ".", "symlink": "{sb}/lnk/out", "symup": "{sb}/lnk/../gen", "relsymup": "lnk/../gen//"}
+# Spellings of the input directories (root namespace, lookup, --templates, --support-templates):
+# plain absolute | relative with ./, doubled slash, trailing slash, x/../ | through a symbolic link
+IN_STYLES = ["plain", "messy", "symlink"]
 
 
 class Sandbox:
@@ -349,7 +355,22 @@ class Sandbox:
             self.stpl = self.ind / "stpl"
             make_stpl_dir(cfg["lang"], pkg_lang_dir, self.stpl)
         self.outarg = OUT_STYLES[cfg.get("out", "rel")].format(sb=self.base)
+        (self.base / "realdir" / "deep").mkdir(parents=True)
+        os.symlink(str(self.base / "realdir" / "deep"), str(self.base / "lnk"))
+        os.symlink("../realdir/deep", str(self.cwd / "lnk"))
+        os.symlink("in", str(self.base / "inlnk"))
         self.entries = entries_for(self.spec, self.ind)
+
+    def spell(self, path):
+        """One of several spellings of an input directory below in/ (all name the same directory)."""
+        style = self.cfg.get("inp", "plain")
+        rel = os.path.relpath(str(path), str(self.ind))
+        if style == "messy":
+            head, _, tail = rel.partition("/")
+            return "../in//./" + head + "/../" + head + ("/" + tail if tail else "") + "/"
+        if style == "symlink":
+            return str(self.base / "inlnk" / ".." / "inlnk" / rel)
+        return str(path)
 
     def cli_args(self, flags):
         c = self.cfg
@@ -359,15 +380,15 @@ class Sandbox:
         if c["gnt"]:
             a.append("--generate-namespace-types")
         if self.tpl is not None:
-            a += ["--templates", str(self.tpl)]
+            a += ["--templates", self.spell(self.tpl)]
         if self.stpl is not None:
-            a += ["--support-templates", str(self.stpl)]
+            a += ["--support-templates", self.spell(self.stpl)]
         if c.get("ext") is not None:
             a.append("--output-extension=" + c["ext"])
         if c.get("stem") is not None:
             a.append("--namespace-output-stem=" + c["stem"])
         for l in self.spec["lookups"]:
-            a += ["--lookup-dir", str(self.ind / l)]
+            a += ["--lookup-dir", self.spell(self.ind / l)]
         a += c.get("extra_args", [])
         if flags[0] == "1":
             a.append("--list-outputs")
@@ -375,7 +396,7 @@ class Sandbox:
             a.append("--list-inputs")
         if flags[2] == "1":
             a.append("--dry-run")
-        a.append(str(self.ind / self.spec["root"]))
+        a.append(self.spell(self.ind / self.spec["root"]))
         return a
 
     def model_line(self, flags, variant="new"):
@@ -401,7 +422,9 @@ class Sandbox:
                          opt(c.get("stem")), tfiles(self.tpl), tfiles(self.stpl), ents])
 
     def norm(self, p):
-        return os.path.normpath(os.path.join(str(self.cwd), p))
+        """The file a printed / predicted path names: resolved identity (symbolic links followed component by
+        component, `..` taken physically), never a lexical normalisation."""
+        return os.path.realpath(os.path.join(str(self.cwd), p))
 
 
 def nnvg(args, cwd, pythonpath, hashseed=None):
@@ -501,6 +524,11 @@ def evaluate(ctx, sb, obs, model, stream):
             ctx.disagree(stream + ":status", inp, m["status"], o["status"] + " | " + o["stderr_tail"][-200:])
             continue
         if mode == "lo" and o["rc"] == 0:
+            # (a) textually: the listing prints the generator's own path objects (str of a pathlib path), untouched
+            tgot, twant = sorted(set(split_list(o["stdout"]))), sorted(set(m["outputs"]))
+            if tgot != twant:
+                ctx.disagree(stream + ":list-outputs-text", inp, [x.replace(base, "$SB") for x in twant][:8], [x.replace(base, "$SB") for x in tgot][:8])
+            # (b) by resolved identity
             got = sorted(set(sb.norm(x) for x in split_list(o["stdout"])))
             want = sorted(set(sb.norm(x) for x in m["outputs"]))
             if got != want:
@@ -521,13 +549,18 @@ def evaluate(ctx, sb, obs, model, stream):
             got = sorted(o["created_files"])
             if got != want:
                 ctx.disagree(stream + ":generated-files", inp, rel(want), rel(got))
-            # directories: exactly the missing ancestors of the written files
+            # directories: mkdir(parents=True) walks the *textual* parents of every written path (so `a/../b` creates `a`)
             wd = set()
-            for f in want:
-                d = os.path.dirname(f)
-                while d.startswith(base + os.sep) and d not in o["dirs_before"]:
-                    wd.add(d)
-                    d = os.path.dirname(d)
+            for t in m["written"]:
+                d = os.path.dirname(os.path.join(str(sb.cwd), t))
+                while True:
+                    r = os.path.realpath(d)
+                    if (r == base or r.startswith(base + os.sep)) and r not in o["dirs_before"]:
+                        wd.add(r)
+                    nd = os.path.dirname(d)
+                    if nd == d:
+                        break
+                    d = nd
             if sorted(wd) != sorted(o["created_dirs"]):
                 ctx.disagree(stream + ":generated-dirs", inp, rel(wd), rel(o["created_dirs"]))
     # ---- the property on the implementation ---------------------------------------------------------------
@@ -538,7 +571,8 @@ def evaluate(ctx, sb, obs, model, stream):
         if lo["rc"] != 0 or listed != made:
             ctx.fail({"kind": "list-outputs-differs-from-generated", "generate_support": cfg["gs"], "omit": cfg["omit"]},
                      "--list-outputs does not print exactly the files the real run creates",
-                     {"cfg": ck, "list_outputs_rc": lo["rc"], "listed_not_created": rel(set(listed) - set(made)),
+                     {"cfg": ck, "list_outputs_rc": lo["rc"], "compared": "resolved identity (os.path.realpath) of the printed paths vs files found on disk",
+                      "printed": [x.replace(base, "$SB") for x in split_list(lo["stdout"])][:6], "listed_not_created": rel(set(listed) - set(made)),
                       "created_not_listed": rel(set(made) - set(listed)), "cli": sb.cli_args(lo["flags"])})
         # listing over the existing output must print the same list again
         lo2 = obs["lo2"]
@@ -895,7 +929,7 @@ def run(ctx: common.Ctx):
         ctx.rng.shuffle(full)
         for c in full:
             c.update(stpl=ctx.rng.choice(["none", "shadow"]), ns=ctx.rng.choice(["plain", "lookup", "solo", "random"]),
-                     out=ctx.rng.choice(["rel", "abs", "dotted"]))
+                     out=ctx.rng.choice(list(OUT_STYLES)), inp=ctx.rng.choice(IN_STYLES))
         grid += full
     ctx.extra["domain"] = {"corpus": len(corpus), "grid_configurations": len(grid)}
     run_stream(ctx, "corpus", corpus, specs, drv, src, pkg_lang_dir)
